@@ -145,6 +145,7 @@ type Program struct {
 	Abrupt              bool          // New, a few pushes, cancel, Wait - back to back on one goroutine, without letting the lane settle; Ops are ignored
 	BornDone            bool          // the lane is created on a context that is already done
 	Sibling             bool          // a second TaskLane lives on the same context, with idle workers and a little work of its own
+	Streak              int           // the program starts with that many panicking tasks in a row on lane 0 (statistics only)
 	Ops                 []Op
 }
 
